@@ -159,11 +159,11 @@ var c19IDs = []string{"a", "b", "./a", "a/", "a//b", "a/../b", "b/.", "../x", "/
 var c19LongIDs = []string{strings.Repeat("L", 4096), strings.Repeat("n", 256), strings.Repeat("d/", 1100), "pkg:" + strings.Repeat("é", 1500)}
 
 func genStoreDoc(t *rapid.T, id string) *sbom.Document {
-	doc := &sbom.Document{}
-	hx.Populate(t, "doc", doc.ProtoReflect(), hx.PopOpts{Depth: 3, MaxRep: 3, FillProb: 55})
-	if doc.Metadata == nil {
-		doc.Metadata = &sbom.Metadata{}
-	}
+	// metadata populated by reflection, the graph well-formed (unique node ids, edges and roots among the nodes): a
+	// store may validate what it persists
+	doc := &sbom.Document{Metadata: &sbom.Metadata{}}
+	hx.Populate(t, "md", doc.Metadata.ProtoReflect(), hx.PopOpts{Depth: 3, MaxRep: 3, FillProb: 55})
+	doc.NodeList = hx.GenNodeList(t, "nl", hx.GraphOpts{WellFormed: true, Normalised: true, MaxNodes: 4, MaxEdges: 4})
 	doc.Metadata.Id = id
 	// "any document": one decoded from data of a newer schema carries fields this schema does not define
 	// (protobuf keeps them as unknown fields; proto.Equal compares them)
